@@ -74,7 +74,7 @@ class EnumView final {
   bool TryToWrite(ValueType value) const {
     if (!CouldWriteValue(value)) return false;
     if (!IsComplete()) return false;
-    buffer_.WriteUInt(static_cast<typename BitViewType::ValueType>(value));
+    buffer_.WriteUInt(ToBits(value));
     return true;
   }
   static constexpr bool CouldWriteValue(ValueType value) {
@@ -88,19 +88,17 @@ class EnumView final {
     //
     // b1) the field size is large enough to hold all values, or
     // b2) the value is less than 2**(field size in bits)
-    return value == static_cast<ValueType>(
-                        static_cast<typename BitViewType::ValueType>(value)) &&
+    return value == static_cast<ValueType>(ToBits(value)) &&
            ((Parameters::kBits ==
              sizeof(typename BitViewType::ValueType) * 8) ||
-            (static_cast<typename BitViewType::ValueType>(value) <
+            (ToBits(value) <
              ((static_cast<typename BitViewType::ValueType>(1)
                << (Parameters::kBits - 1))
               << 1))) &&
            Parameters::ValueIsOk(value);
   }
   void UncheckedWrite(ValueType value) const {
-    buffer_.UncheckedWriteUInt(
-        static_cast<typename BitViewType::ValueType>(value));
+    buffer_.UncheckedWriteUInt(ToBits(value));
   }
 
   template <typename OtherView>
@@ -150,6 +148,14 @@ class EnumView final {
   static constexpr int SizeInBits() { return Parameters::kBits; }
 
  private:
+  // The bit pattern of `value` in the enum's own width, zero-extended to the
+  // width of the backing integer (so that -1 of an int8_t enum is 0xff, not
+  // 0xffff, when the enclosing `bits` is 16 bits wide).
+  static constexpr typename BitViewType::ValueType ToBits(ValueType value) {
+    return static_cast<typename BitViewType::ValueType>(
+        static_cast<typename ::std::make_unsigned<
+            typename ::std::underlying_type<ValueType>::type>::type>(value));
+  }
   BitViewType buffer_;
 };
 
